@@ -99,5 +99,6 @@ void h_sum(void) { const uint32_t* lv; uint8_t n; sum_the_sample_weights(n, lv);
         {"name": "const_iterator_incr", "entry": "h_incr", "enforce": "kll_const_iterator_incr", "loops": True, "expect_loop_steps": 1, "timeout": 600},
         {"name": "sum_the_sample_weights", "entry": "h_sum", "enforce": "sum_the_sample_weights", "loops": True, "expect_loop_steps": 1, "timeout": 600},
     ],
+    "replay": {"*": {"template": "quantiles_object.cpp", "vars": {}}},
     "assumptions": ["'iterating yields exactly num_retained entries whose weights sum to n' follows from the per-step coherence + sum_the_sample_weights == n (checked by the sketch itself) by induction over the iteration (paper step)"],
 }
